@@ -36,6 +36,30 @@ def default_inline(f):
     return pred
 
 
+def scope(f, body, depth=3):
+    """`body`, the private helpers the default policy looks through (transitively), and the closures of all of them:
+    the unit a syntactic scan has to cover so that moving code into a private helper does not hide it."""
+    pred = default_inline(f)
+    out, seen, todo = [], set(), [(body, 0)]
+    while todo:
+        b, d = todo.pop()
+        if b.path in seen:
+            continue
+        seen.add(b.path)
+        out.append(b)
+        for k in f.children(b):
+            if k.kind == "Closure" and k.path not in seen:
+                todo.append((k, d))
+        if d < depth:
+            for bb, t, fn in b.calls():
+                if fn and pred(fn):
+                    r = fn.get("resolved") or {}
+                    cb = f.body(r.get("path") if r.get("kind") == "item" else fn["path"])
+                    if cb is not None:
+                        todo.append((cb, d + 1))
+    return out
+
+
 def paths(f, body, max_visits=2, cut_at_yield=False, max_paths=50000, inline=True, **kw):
     key = (id(f), body.path, max_visits, cut_at_yield, inline, tuple(sorted(kw)))
     if key not in _cache:
@@ -77,6 +101,21 @@ def mentions_call(e, pred):
     for x in walk_expr(e):
         if isinstance(x, tuple) and x and x[0] in ("call", "pure") and pred(x):
             return x
+    return None
+
+
+def option_decided(p, pred, upto_ncond=None):
+    """1 / 0 if an Option whose expression satisfies pred was decided Some / None on the path (match, if let, is_some..), else None"""
+    from .sym import derived_decision
+    conds = p.conds if upto_ncond is None else p.conds[:upto_ncond]
+    for (e, c, _, _) in conds:
+        d = derived_decision(e, c)
+        if d is not None:
+            e, c = d
+        if e[0] == "discr" and c[0] == "eq" and any(pred(x) for x in walk_expr(e[1]) if isinstance(x, tuple) and x):
+            return c[1]
+        if e[0] == "discr" and c[0] == "notin" and len(c[1]) == 1 and any(pred(x) for x in walk_expr(e[1]) if isinstance(x, tuple) and x):
+            return 1 - c[1][0] if c[1][0] in (0, 1) else None
     return None
 
 
